@@ -21,11 +21,17 @@
 package main
 
 import (
+	"bufio"
 	"crypto/sha256"
 	"fmt"
 	"os"
+	"runtime"
+	"runtime/debug"
+	"runtime/pprof"
 	"sort"
 	"strings"
+	"sync"
+	"sync/atomic"
 	"time"
 
 	"verif/engine/report"
@@ -45,11 +51,13 @@ type Case struct {
 type node struct {
 	init int
 	path []uint8
+	hash [16]byte
 	appl uint8 // bit i set: variable i holds an array/map/error (operations on it are applicable)
 }
 
 type slot struct {
 	ran      bool
+	runs     int // script runs spent (rebuild + replayed prefix + the operation)
 	hash     [16]byte
 	appl     uint8
 	nontriv  bool
@@ -66,38 +74,93 @@ func hashOf(s string) (h [16]byte) {
 	return
 }
 
-// expand replays n.path on a fresh instance of its initial state and applies
-// operation k with the full oracle. Prefix steps are replayed with the oracle
-// switched to "track only" (their verdicts were evaluated when they were the
-// last step of a shorter path; every prefix of a frontier path is violation
-// free because violating successors are not expanded).
-func expand(I []initDef, n node, k int) (s slot) {
-	op := &opTable[k]
-	h, iv := I[n.init].build()
-	if h == nil {
-		s.internal = "cannot rebuild init " + I[n.init].name() + ": " + iv
-		return
+// expandNode applies every applicable operation to the state reached by
+// n.path. Live objects cannot be cloned, so the state is rebuilt by replaying
+// n.path on a fresh instance of the initial state. Prefix steps are replayed
+// with the oracle in "track only" mode (their verdicts were evaluated when
+// they were the last step of a shorter path; every prefix of a frontier path is
+// violation free because violating successors are not expanded).
+//
+// One rebuilt instance is used for several operations when that is provably
+// harmless: after an operation that produced no violation the variables (and
+// their routes) are bound back to the objects they held before and the records
+// of objects first seen in that operation are dropped; if the canonical form of
+// the result equals the canonical form of n, the instance is again a
+// representative of state n (the same equivalence the whole search rests on:
+// see canon.go) and the next operation is applied to it. This is the case for
+// failed writes and for derivations that only created new objects. After an
+// operation that wrote into a pre-existing object the canonical forms differ,
+// the instance is discarded and the next operation starts from a fresh replay.
+func expandNode(I []initDef, n node, slots []slot) {
+	var h *heap
+	for k := range opTable {
+		op := &opTable[k]
+		if n.appl&(1<<uint(op.Target)) == 0 {
+			continue // target variable holds no container: operation not applicable (see ops.go)
+		}
+		s := &slots[k]
+		if h == nil {
+			var iv string
+			h, iv = I[n.init].build()
+			if h == nil {
+				s.internal = "cannot rebuild init " + I[n.init].name() + ": " + iv
+				return
+			}
+			s.runs++
+			for _, pk := range n.path {
+				h.step(&opTable[pk], false)
+				s.runs++
+			}
+		}
+		mark := h.mark()
+		out := h.step(op, true)
+		s.runs++
+		s.ran = true
+		s.hash = hashOf(h.canon())
+		s.appl = h.applMask()
+		s.nontriv = h.nontrivial()
+		s.aliasing = h.aliasesRoot()
+		s.outcome = op.Class + "/" + out.class + "/" + out.effect
+		s.unprot = out.unprotChanged
+		if out.class == "compile-error" {
+			s.internal = "operation script does not compile: " + op.Name + ": " + out.errText
+		}
+		for _, v := range out.viols {
+			v.c = Case{Init: I[n.init].name(), Ops: append(pathNames(n.path), op.Name), Step: len(n.path) + 1,
+				Before: v.before, After: v.after}
+			s.viols = append(s.viols, v)
+		}
+		if len(out.viols) > 0 || out.class == "panic" || out.class == "compile-error" {
+			h = nil
+			continue
+		}
+		h.restore(mark)
+		if hashOf(h.canon()) != n.hash {
+			h = nil
+		}
 	}
-	for _, pk := range n.path {
-		h.step(&opTable[pk], false)
+}
+
+// parallelFor runs fn(i), i in [0,n), on all cores, one index at a time (the
+// work per index - all operations of one state - is coarse enough).
+func parallelFor(n int, fn func(i int)) {
+	workers := runtime.GOMAXPROCS(0)
+	var next int64 = -1
+	var wg sync.WaitGroup
+	for w := 0; w < workers; w++ {
+		wg.Add(1)
+		go func() {
+			defer wg.Done()
+			for {
+				i := int(atomic.AddInt64(&next, 1))
+				if i >= n {
+					return
+				}
+				fn(i)
+			}
+		}()
 	}
-	out := h.step(op, true)
-	s.ran = true
-	s.hash = hashOf(h.canon())
-	s.appl = h.applMask()
-	s.nontriv = h.nontrivial()
-	s.aliasing = h.aliasesRoot()
-	s.outcome = op.Class + "/" + out.class + "/" + out.effect
-	s.unprot = out.unprotChanged
-	if out.class == "compile-error" {
-		s.internal = "operation script does not compile: " + op.Name + ": " + out.errText
-	}
-	for _, v := range out.viols {
-		v.c = Case{Init: I[n.init].name(), Ops: append(pathNames(n.path), op.Name), Step: len(n.path) + 1,
-			Before: v.before, After: v.after}
-		s.viols = append(s.viols, v)
-	}
-	return
+	wg.Wait()
 }
 
 func pathNames(p []uint8) []string {
@@ -108,11 +171,28 @@ func pathNames(p []uint8) []string {
 	return out
 }
 
+var traceW *bufio.Writer
+
 func main() {
+	if tf := os.Getenv("C09_TRACE"); tf != "" {
+		f, _ := os.Create(tf)
+		traceW = bufio.NewWriter(f)
+	}
 	if p := report.ReplayArg(); p != "" {
 		replay(p)
 		return
 	}
+	if pf := os.Getenv("C09_PROF"); pf != "" {
+		f, _ := os.Create(pf)
+		_ = pprof.StartCPUProfile(f)
+	}
+	// every script run allocates a ~100 KB VM (tengo.NewVM); the live heap is
+	// tiny, so let the collector run less often
+	gcp := 200
+	if v := os.Getenv("C09_GC"); v != "" {
+		fmt.Sscan(v, &gcp)
+	}
+	debug.SetGCPercent(gcp)
 	r := report.New("C09")
 	I := inits()
 	buildOps()
@@ -154,7 +234,7 @@ func main() {
 			pruned++
 			continue
 		}
-		frontier = append(frontier, node{init: i, appl: h.applMask()})
+		frontier = append(frontier, node{init: i, appl: h.applMask(), hash: hs})
 		if h.nontrivial() {
 			nontrivial++
 		}
@@ -181,14 +261,9 @@ func main() {
 				hi = len(frontier)
 			}
 			slots := make([]slot, (hi-lo)*nOps)
-			// 16-way parallel over (frontier state, operation) pairs of this chunk
-			report.ParallelFor(len(slots), func(j int) {
-				n := frontier[lo+j/nOps]
-				k := j % nOps
-				if n.appl&(1<<uint(opTable[k].Target)) == 0 {
-					return // target variable holds no container: operation not applicable (see ops.go)
-				}
-				slots[j] = expand(I, n, k)
+			// parallel over the frontier states of this chunk (all cores)
+			parallelFor(hi-lo, func(i int) {
+				expandNode(I, frontier[lo+i], slots[i*nOps:(i+1)*nOps])
 			})
 			// sequential merge in (state, operation) order: deterministic
 			// representative paths, violation examples and counters
@@ -203,7 +278,10 @@ func main() {
 				n := frontier[lo+j/nOps]
 				k := j % nOps
 				transitions++
-				evaluations += int64(len(n.path) + 1)
+				evaluations += int64(s.runs)
+				if traceW != nil {
+					fmt.Fprintf(traceW, "%s | %s | %s | runs=%d hash=%x\n", I[n.init].name(), strings.Join(pathNames(n.path), " ; "), opTable[k].Name, s.runs, s.hash[:6])
+				}
 				unprotChanged += int64(s.unprot)
 				r.Outcome(s.outcome)
 				if s.internal != "" {
@@ -234,7 +312,7 @@ func main() {
 					p := make([]uint8, len(n.path)+1)
 					copy(p, n.path)
 					p[len(n.path)] = uint8(k)
-					next = append(next, node{init: n.init, path: p, appl: s.appl})
+					next = append(next, node{init: n.init, path: p, appl: s.appl, hash: s.hash})
 				}
 			}
 		}
@@ -272,6 +350,10 @@ func main() {
 	r.Assume("states in which a violation was observed are reported and not expanded further; operations whose target variable holds no array/map/error are skipped (they fail without touching the heap)")
 	if unprotChanged == 0 {
 		r.Note("no change of an unprotected (aliased) immutable value was observed: the aliased initial states did not exercise the proviso")
+	}
+	pprof.StopCPUProfile()
+	if traceW != nil {
+		traceW.Flush()
 	}
 	r.Finish(report.Coverage{
 		States:      int64(len(visited)),
